@@ -3,7 +3,7 @@ import math
 from hypothesis import strategies as st
 from lib import cvz
 from lib.gen import fl, rnd, fmt
-from lib.core import Outcome, run_case, fnum
+from lib.core import Outcome, run_case, fnum, pct
 
 ID = "C17"
 LEVEL = "exploration"
@@ -40,7 +40,10 @@ def spec_ext(draw, tier):
             "dt": draw(st.sampled_from([1.0, 2.0, 0.5])), "damp": draw(st.sampled_from([0.0, 0.0, 1.0, 10.0])),
             "gauss": [rnd(draw(fl(-2.5, 2.5)), 3) for _ in range(16)], "bias": bias, "kb": rnd(draw(fl(0.5, 20)), 2),
             "c": rnd(draw(fl(-1, 3)), 2), "refl": refl, "rl": rnd(draw(fl(-0.5, 0.8)), 2), "ru": rnd(draw(fl(1.2, 2.5)), 2),
-            "newrun": draw(st.integers(2, T - 2)) if (draw(st.integers(0, 2)) == 0 and tsf == 1) else None, "width": draw(st.sampled_from([1.0, 0.5]))}
+            "newrun": draw(st.integers(2, T - 2)) if (draw(st.integers(0, 2)) == 0 and tsf == 1) else None, "width": draw(st.sampled_from([1.0, 0.5])),
+            # the run stopped after step 'restart', continued by a fresh instance from the saved state, whose first step (the same step
+            # again) is evaluated once or twice ("run 0" then "run N")
+            "restart": draw(st.integers(2, T - 2)) if draw(st.integers(0, 3)) == 0 else None, "twice": draw(st.booleans())}
 
 
 def build(spec):
@@ -68,11 +71,31 @@ def build(spec):
             fmt(spec["c"]), fmt(spec["c"] + 0.6), fmt(spec["kb"]), "  bypassExtendedLagrangian off\n" if b.endswith("off") else "")
     L = cvz.header(2, 0, temperature=300.0) + ["timestep %s" % fnum(spec["dt"]), "gauss " + " ".join(fnum(g) for g in spec["gauss"])]
     L.append("config <<END\n%s\nEND" % cfg)
+    rs = restart_step(spec)
+    if rs is not None:
+        L1 = list(L)
+        for t, x in enumerate(spec["x"][:rs + 1]):
+            L1 += [cvz.pos_line_z([x], 2), "step"]
+        L1.append("savestr")
+        L2 = list(L[:-1]) + ["setstep %d" % rs, L[-1], "loadstr @STATE@", cvz.pos_line_z([spec["x"][rs]], 2), "step"]
+        if spec["twice"]:
+            L2 += ["newrun", "step"]
+        for x in spec["x"][rs + 1:]:
+            L2 += [cvz.pos_line_z([x], 2), "step"]
+        return ("\n".join(L1) + "\n", "\n".join(L2) + "\n"), (lo, up)
     for t, x in enumerate(spec["x"]):
         if spec["newrun"] == t:
             L += ["newrun", "step"]
         L += [cvz.pos_line_z([x], 2), "step"]
     return "\n".join(L) + "\n", (lo, up)
+
+
+def restart_step(spec):
+    """the step after which the run is continued by a fresh instance, or None (the engine's random stream is not part of the state:
+    only without friction; one schedule change per case)"""
+    if spec.get("restart") is None or spec["damp"] > 0 or spec.get("tsf", 1) > 1 or spec["newrun"] is not None:
+        return None
+    return min(spec["restart"], len(spec["x"]) - 2)
 
 
 def model(spec, bounds, observed=None):
@@ -107,10 +130,16 @@ def model(spec, bounds, observed=None):
     prev = None
     info = {"reflections": 0, "spring": 0}
     ev = []
+    rs = restart_step(spec)
     for t, x in enumerate(spec["x"]):
         if spec["newrun"] == t:
             ev.append((t - 1, True, spec["x"][t - 1]))
         ev.append((t, False, x))
+        if rs == t:
+            # the resumed instance evaluates the same step again from the saved state: nothing advances
+            ev.append((t, True, x))
+            if spec["twice"]:
+                ev.append((t, True, x))
     for it, rep, xraw in ev:
         if nts > 1 and it % nts != 0:
             out.append(None)       # the variable sleeps at this step
@@ -190,12 +219,26 @@ def model(spec, bounds, observed=None):
 
 def check_ext(spec, ctx):
     case, bounds = build(spec)
-    r = run_case(case)
-    if r.crashed:
-        return Outcome(False, msg="crash %s" % r.stderr[-400:], sig="crash", case_text=case)
-    if r.of("config")[0]["rc"] != 0:
-        return Outcome(False, msg="configuration rejected: %s" % r.of("config")[0]["errs"], sig="gen_invalid", case_text=case)
-    steps = r.of("step")
+    if isinstance(case, tuple):
+        c1, c2 = case
+        r = run_case(c1)
+        if r.crashed or r.of("config")[0]["rc"] != 0:
+            return Outcome(False, msg="first segment failed: %s %s" % (r.of("config")[:1], r.stderr[-300:]), sig="gen_invalid", case_text=c1)
+        c2 = c2.replace("@STATE@", pct(r.of("savestr")[0]["state"]))
+        r2 = run_case(c2)
+        case = c1 + "\n# ---- continued by a fresh instance ----\n" + c2
+        if r2.crashed:
+            return Outcome(False, msg="crash in the continuation %s" % r2.stderr[-400:], sig="crash", case_text=case)
+        if r2.of("config")[0]["rc"] != 0 or r2.of("load")[0]["rc"] != 0:
+            return Outcome(False, msg="continuation rejected: %s %s" % (r2.of("config")[0]["errs"], r2.of("load")[0]["errs"]), sig="restart_load", case_text=case)
+        steps = r.of("step") + r2.of("step")
+    else:
+        r = run_case(case)
+        if r.crashed:
+            return Outcome(False, msg="crash %s" % r.stderr[-400:], sig="crash", case_text=case)
+        if r.of("config")[0]["rc"] != 0:
+            return Outcome(False, msg="configuration rejected: %s" % r.of("config")[0]["errs"], sig="gen_invalid", case_text=case)
+        steps = r.of("step")
     obs = [((s["cv"][0]["x"][0], s["cv"][0]["v"][0]) if s["cv"] and "v" in s["cv"][0] else None) for s in steps]
     exp, info = model(spec, bounds, obs)
     if len(steps) != len(exp):
@@ -238,7 +281,8 @@ def check_ext(spec, ctx):
             return Outcome(False, msg="evaluation %d: force on the atom %r; spring (+ bypassing bias) gives %r %s" % (k, fz, m["fz"], tag),
                            sig="atom_force", case_text=case)
     cls = (spec["bias"], "per" if spec["periodic"] else "", "refl:" + spec["refl"], "lang" if spec["damp"] > 0 else "nve",
-           "newrun" if spec["newrun"] is not None else "", "tsf" if spec.get("tsf", 1) > 1 else "",
+           "newrun" if spec["newrun"] is not None else "", "restart" if restart_step(spec) is not None else "",
+           "restart_twice" if restart_step(spec) is not None and spec["twice"] else "", "tsf" if spec.get("tsf", 1) > 1 else "",
            "tsf_lang" if spec.get("tsf", 1) > 1 and spec["damp"] > 0 else "")
     nontrivial = len(exp) >= 20 and info["spring"] > 0 and (info["reflections"] > 0 or spec["newrun"] is not None)
     return Outcome(True, nontrivial=nontrivial, cls=cls, strata=[c for c in cls if c] + (["reflection"] if info["reflections"] else []), case_text=case)
@@ -251,4 +295,4 @@ def view(spec):
 
 
 PARTS = {"integrator": {"strategy": spec_ext, "check": check_ext, "examples": {"quick": 12000, "thorough": 30000}, "sample": view}}
-REQUIRED_STRATA = {"all": ["integrator:tsf", "integrator:tsf_lang", "integrator:reflection", "integrator:lang", "integrator:nve", "integrator:newrun", "integrator:walls", "integrator:per"]}
+REQUIRED_STRATA = {"all": ["integrator:tsf", "integrator:tsf_lang", "integrator:reflection", "integrator:lang", "integrator:nve", "integrator:newrun", "integrator:walls", "integrator:per", "integrator:restart", "integrator:restart_twice"]}
